@@ -501,6 +501,10 @@ func (rn *runner) textCase(g *gen, d *apd.Decimal) {
 		} else {
 			parts = append(parts, showDec(&y))
 		}
+		// the same verb with the sign flags only (no width, no '0', no '-'): the text that the padding rules of fmt
+		// are applied to - the driver evaluates those rules on this output (C14_format_minus/_left/_width)
+		sf := strings.NewReplacer("0", "", "-", "").Replace(fl)
+		parts = append(parts, hx(fmt.Sprintf("%"+sf+string(verb), d)))
 		return strings.Join(parts, " ")
 	})
 }
